@@ -1367,6 +1367,59 @@ func opVersionSweep(r *rand.Rand) {
 	}
 }
 
+// recoverAfterFirstFailure: the pool's very first metadata refresh fails (failing dial, a request that is never answered,
+// a dropped connection) while nothing is cached yet, a later refresh succeeds: from then on metadata requests must be
+// answered from the cache again (not with the stale error) and produce must be routed.
+//
+//	recover ttl=<ms> first=<dialfail|stall|drop>  → "then=<ok|err> produce=<ok|err>"
+func recoverAfterFirstFailure(r *rand.Rand, ttl time.Duration, kind string) {
+	const tolerance = 1500 * time.Millisecond
+	c := fakecluster.New()
+	for id := int32(0); id < 3; id++ {
+		c.AddBroker(id)
+	}
+	c.Topics["t"] = &fakecluster.Topic{Parts: map[int32]*fakecluster.Part{0: {Leader: int32(r.Intn(3))}}}
+	switch kind {
+	case "dialfail":
+		c.DialFailures = 1
+	case "stall":
+		c.MetaFaults = []fakecluster.Fault{{Kind: "stall"}}
+	case "drop":
+		c.MetaFaults = []fakecluster.Fault{{Kind: "drop"}}
+	}
+	tr := &kafka.Transport{Dial: c.Dial, MetadataTTL: ttl}
+	defer func() { tr.CloseIdleConnections(); c.Close() }()
+	addr := kafka.TCP(c.Brokers[1].Addr())
+	meta := func() error {
+		ctx, cancel := context.WithTimeout(context.Background(), 2*time.Second)
+		defer cancel()
+		_, err := tr.RoundTrip(ctx, addr, &metadata.Request{TopicNames: []string{"t"}})
+		return err
+	}
+	meta() // creates the pool; its first refresh is the faulty one
+	// wait until a refresh has been answered normally, then the stale error must be gone
+	limit := time.Now().Add(2*ttl + tolerance)
+	for c.MetaServed() == 0 && time.Now().Before(limit) {
+		time.Sleep(time.Millisecond)
+	}
+	then := "err"
+	limit = time.Now().Add(ttl + tolerance)
+	for time.Now().Before(limit) {
+		if meta() == nil {
+			then = "ok"
+			break
+		}
+		time.Sleep(2 * time.Millisecond)
+	}
+	prod := "err"
+	ctx, cancel := context.WithTimeout(context.Background(), 2*time.Second)
+	if _, err := tr.RoundTrip(ctx, addr, build(reqSpec{pkg: "produce", tps: []tp{{"t", []int32{0}}}})); err == nil {
+		prod = "ok"
+	}
+	cancel()
+	emit(fmt.Sprintf("recover ttl=%d first=%s", ttl.Milliseconds(), kind), fmt.Sprintf("then=%s produce=%s", then, prod))
+}
+
 func main() {
 	defer out.Flush()
 	r := gen.New()
@@ -1389,4 +1442,7 @@ func main() {
 	}
 	followLeader(r, 100*time.Millisecond, nFollow)
 	followLeader(r, 60*time.Millisecond, nFollow/2)
+	for _, kind := range []string{"dialfail", "stall", "drop"} {
+		recoverAfterFirstFailure(r, 80*time.Millisecond, kind)
+	}
 }
